@@ -5,6 +5,7 @@ from vx.run import Unit
 
 PAO = "libs/pika/affinity/src/parse_affinity_options.cpp"
 AD = "libs/pika/affinity/src/affinity_data.cpp"
+PAO_HPP = "libs/pika/affinity/include/pika/affinity/parse_affinity_options.hpp"
 DEV = bool(os.environ.get("C15_DEV"))  # development: skip the (slow) native replay of failed obligations
 
 
@@ -256,6 +257,51 @@ ROUND = Sub(r"static_cast<std::size_t>\(std::round\(\s*static_cast<double>\(([^;
             r"vx_round_ratio(\1, \2)", 1)
 DEC_RULES = [THROWS_IF, CNT_CALL] + SPELL + [TOPO] + OUT_VECS
 
+# ---- binding "none" (affinity_data.cpp) ----
+AD_HPP = "libs/pika/affinity/include/pika/affinity/affinity_data.hpp"
+NONE_SPELL = [
+    Sub(r"threads::detail::mask_type\(\)", "mask_default()", None),
+    Sub(r"threads::detail::mask_type\b", "struct mask", None),
+    Sub(r"threads::detail::hardware_concurrency\(\)", "vx_hardware_concurrency()", None),
+    Call(r"threads::detail::resize\(\s*no_affinity_\s*,", "bitmask_resize(&self->no_affinity_, {0})", None),
+]
+GET_PU_NUM = Lift(AD_HPP, r"std::size_t get_pu_num\(std::size_t num_thread\) const", rules=[
+    Sub(r"\bpu_nums_\.size\(\)", "self->pu_nums_size", 1),
+    Index("pu_nums_", "vx_pu_nums_at(self, {0})", 1)])
+LOOP_NONE = ("__CPROVER_assigns(i, self->no_affinity_.v_bit)\n"
+             "__CPROVER_loop_invariant(i <= self->num_threads_ && ((g_k < i && g_k_punum == g_b) ==> self->no_affinity_.v_bit))")
+NONE_LIFTS = {
+    "get_pu_num": GET_PU_NUM,
+    "none_branch": Lift(AD, r'if \(affinity_description == "none"\)', fragment_end=r"get_pu_num\(i\)\);\s*\}", rules=[
+        Sub(r'affinity_description == "none"', "vx_description_is_none", 1),
+        Sub(r"threads::detail::resize\(no_affinity_,\s*([^;]+)\);", r"bitmask_resize(&self->no_affinity_, \1);", 1),
+        Sub(r"threads::detail::set\(no_affinity_,\s*([^;]+)\);", r"bitmask_set(&self->no_affinity_, \1);", 1),
+        Sub(r"\bget_pu_num\(", "get_pu_num(self, ", 1),
+        Members(["num_threads_"])], loops={1: LOOP_NONE, "count": 1}),
+}
+GPM_LIFTS = {
+    "get_pu_num": GET_PU_NUM,
+    "get_pu_mask": Lift(AD, r"threads::detail::mask_cref_type affinity_data::get_pu_mask\(", rules=[
+        Sub(r"threads::detail::test\(no_affinity_,\s*([^()]+)\)", r"bitmask_test(&self->no_affinity_, \1)", 1),
+        Sub(r"static threads::detail::mask_type (\w+) = threads::detail::mask_type\(\);", r"struct mask \1 = mask_default();", 1),
+        Sub(r"threads::detail::resize\((\w+),\s*threads::detail::hardware_concurrency\(\)\);", r"mask_resize(&\1, vx_hardware_concurrency());", 1),
+        Sub(r"\baffinity_masks_\.empty\(\)", "(self->affinity_masks_size == 0)", 1),
+        Index("affinity_masks_", "vx_affinity_masks_at(self, {0})", 1),
+        Sub(r"\bget_pu_num\(", "get_pu_num(self, ", 1),
+        Sub(r'0 == std::string\("(\w+)"\)\.find\(affinity_domain_\)', r"vx_domain_has_prefix(self, DOM_\1)", 4),
+        ObjCall("topo", "topo_"),
+    ]),
+}
+NONE_UNITS = [
+    Unit("none.init_branch", "none.c", defines=["U_NONE_BRANCH"], enforce="init_none_branch", lifts=NONE_LIFTS,
+         funcs=[AD + ": affinity_data::init (the `none` branch)", AD_HPP + ": affinity_data::get_pu_num(num_thread)"], min_obligations=10),
+    Unit("none.get_pu_mask", "none.c", defines=["U_GET_PU_MASK"], enforce="get_pu_mask", lifts=GPM_LIFTS,
+         funcs=[AD + ": affinity_data::get_pu_mask", AD_HPP + ": affinity_data::get_pu_num(num_thread)"], min_obligations=10),
+    Unit("none.lemma", "none.c", defines=["U_NONE_LEMMA"], kind="lemma", replace=["init_none_branch", "get_pu_mask"],
+         lifts={"get_pu_num": GET_PU_NUM}, funcs=["lemma over the contracts of affinity_data::init (none branch) and affinity_data::get_pu_mask"],
+         doc="bind=none: every worker gets the empty affinity mask"),
+]
+
 def numa_lifts(loops):
     return dict(HELPERS, body=Lift(PAO, r"void decode_numabalanced_distribution\(", rules=[ROUND] + DEC_RULES + LOCAL_DECLS +
                                    locvec(NCS) + locvec(NPS, writes=None, pre_incs=1) + locvec(NTS) + locvec("next_pu_index") +
@@ -284,6 +330,11 @@ UNITS = [
          lifts=dict(HELPERS, body=Lift(PAO, r"void decode_compact_distribution\(", rules=DEC_RULES,
                                        loops=COMPACT_LOOPS)),
          funcs=[PAO + ": decode_compact_distribution, check_num_threads, pu_in_process_mask"], min_obligations=40, timeout=300, no_replay=DEV),
+    Unit("decode_distribution", "dispatch.c", enforce="decode_distribution",
+         lifts={"dist_enum": Lift(PAO_HPP, r"enum distribution_type", fragment_end=r"\};", rules=[]),
+                "body": Lift(PAO, r"void decode_distribution\(", rules=[Call(r"\baffinities\.resize", "maskvec_resize(affinities, {0})", 1)])},
+         funcs=[PAO + ": decode_distribution"], min_obligations=10),
+] + NONE_UNITS + [
     Unit("pu_in_process_mask", "decoders.c", defines=["U_PIM"], enforce="pu_in_process_mask", lifts=dict(HELPERS),
          funcs=[PAO + ": pu_in_process_mask"], min_obligations=3),
     Unit("check_num_threads", "decoders.c", defines=["U_CNT"], enforce="check_num_threads", lifts=dict(HELPERS),
